@@ -25,14 +25,19 @@ ASSUMPTIONS = ["wire length is measured between entity positions (centres), as t
 
 
 def budget(tier):
-    return {"examples": 500 if tier == "quick" else 8000, "wall_s": 130 if tier == "quick" else 1700}
+    return {"examples": 400 if tier == "quick" else 8000, "wall_s": 120 if tier == "quick" else 1700}
 
 
 @st.composite
 def strategy_(draw, tier):
-    prog = draw(gen.spread_program(steer=known.active("shared-network-leak")))
-    return {"prog": prog, "opts": {}, "poles": draw(st.sampled_from(gen.POLE_OPTIONS)), "optimize": draw(st.integers(0, 3)) != 0,
-            "sched": draw(gen.schedule())}
+    poles = draw(st.sampled_from(gen.POLE_OPTIONS))
+    # a pole grid over a 300x300 tile bounding box is thousands of fixed entities: with poles the spread stays <= 20 tiles per cell
+    span = draw(st.sampled_from([8, 12, 20])) if poles else None
+    prog = draw(gen.spread_program(steer=known.active("shared-network-leak"), span=span))
+    sched = draw(gen.schedule())
+    if tier == "quick":
+        sched.pop("untouched", None)  # production solver defaults (all cores, wall-clock limits) only in the thorough tier
+    return {"prog": prog, "opts": {}, "poles": poles, "optimize": draw(st.integers(0, 3)) != 0, "sched": sched}
 
 
 def strategy(tier):
